@@ -55,6 +55,7 @@ def _m1():
         ('state', 's0', 'frozen', 0), ('state', 's0', 'up', -1),
         ('cell-', 'rack:0'), ('cell+', 'rack:0'),
         ('tick', 40), ('noop',), ('restart',),
+        ('dup', 0, 's0'), ('dup', 0, 's1'), ('dup', 1, 's2'),
     )
     return cfg
 
